@@ -231,15 +231,17 @@ def check_deserialize(chk, crate, adt):
 
 def check_isaac_array_serde(chk, crate):
     skey = dkey = vkey = None
-    for key in crate.bodies:
-        if crate.bodies[key]["kind"] == "Closure" or "{closure" in key:
+    for key, b in crate.bodies.items():
+        if b["kind"] == "Closure" or "{closure" in key or b["krate"] != crate.name:
             continue  # closures inside the three functions are evaluated as part of them
-        if "isaac_array_serde::serialize" in key:
-            skey = key
-        elif "isaac_array_serde::deserialize" in key and "visit_seq" in key:
-            vkey = key
-        elif "isaac_array_serde::deserialize::<" in key and "ArrayVisitor" not in key:
+        d = b["def"]
+        last = d.split("::")[-1]
+        if not d.startswith("<") and last == "serialize":
+            skey = key  # the free function named in #[serde(with = "...")] (module and names around it may change)
+        elif not d.startswith("<") and last == "deserialize":
             dkey = key
+        elif last == "visit_seq" and "__Visitor" not in d and "_serde::de::Visitor" in d and "::_::" not in d.split(" as ")[0]:
+            vkey = key  # the hand-written visitor (derive-generated ones are called __Visitor and live in `_` const blocks)
     if not (skey and dkey and vkey):
         chk.ob("R3", "isaac_array_serde|anchors", False, "serialize/deserialize/visit_seq bodies not found: %s %s %s" % (skey, dkey, vkey))
         return
